@@ -362,7 +362,7 @@ regurgitate_one_stockholm_entry(FILE *ofp, ESL_MSAFILE *afp)
     {
       fwrite(p, sizeof(char), n, ofp);
       fputs("\n", ofp);
-      while (n && isspace(*p)) { p++; n--; }   /* as the Stockholm parser does: the terminator may be indented */
+      while (n && (*p == ' ' || *p == '\t')) { p++; n--; }   /* exactly as the Stockholm parser does: the terminator may be indented by blanks and TABs */
       if (esl_memstrpfx(p, n, "//")) break;
     }
   if      (status == eslEOF) esl_fatal("Reached end of file before finding // termination line for alignment");
